@@ -1132,9 +1132,14 @@ func runSizeQuery(w *harness.W, r gen.R) bool {
 		sess.Vx.Resize()
 		announced := false
 		deadline := time.After(10 * time.Second)
+		again := time.NewTicker(400 * time.Millisecond)
 	wait:
 		for !announced {
 			select {
+			case <-again.C:
+				// the request has a 100 ms deadline of its own, which a
+				// loaded machine can miss: the application asks again
+				sess.Vx.Resize()
 			case ev := <-sess.Vx.Events():
 				switch e := ev.(type) {
 				case vaxis.Redraw:
@@ -1151,6 +1156,7 @@ func runSizeQuery(w *harness.W, r gen.R) bool {
 				break wait
 			}
 		}
+		again.Stop()
 		w.Count("size_requests", 1)
 		if !announced {
 			w.Violation("query:size:"+sc.Timing+":new-size-never-announced", fmt.Sprintf("size change %d to %dx%d: the terminal answers the size request (%s), but no Resize event with that size arrived within 10 s of Resize()+Render()", i, sz[0], sz[1], sc.Timing), sc, "no Resize event", fmt.Sprintf("Resize{Cols:%d Rows:%d}", sz[0], sz[1]))
